@@ -296,3 +296,22 @@ package ring
 //@   loop 3 invariant forall id string :: in(id, change.Owners) ==> in(id, m.Owners) && change.Owners[id] == m.Owners[id]
 //@   loop 3 invariant forall id string :: in(id, m.Owners) && (!in(id, o0) || m.Owners[id] != o0[id]) ==> in(id, change.Owners)
 //@   loop 3 invariant (len(change.Owners) == 0) <==> (forall id string :: !in(id, change.Owners))
+//@
+//@ # retention of partition-ring tombstones: exactly the deleted partitions / owners older than the limit (all if zero) go
+//@ func PartitionRingDesc.RemoveTombstones
+//@   property C04
+//@   requires !isnil(m.Partitions) && !isnil(m.Owners)
+//@   ensures  parts_kept: forall id int32 :: in(id, m.Partitions) <==> (in(id, old(m).Partitions) && !(old(m).Partitions[id].State == PartitionDeleted && (iszero(limit) || old(m).Partitions[id].StateTimestamp * 1000000000 < ns(limit))))
+//@   ensures  parts_same: forall id int32 :: in(id, m.Partitions) ==> m.Partitions[id] == old(m).Partitions[id]
+//@   ensures  owners_kept: forall n string :: in(n, m.Owners) <==> (in(n, old(m).Owners) && !(old(m).Owners[n].State == OwnerDeleted && (iszero(limit) || old(m).Owners[n].UpdatedTimestamp * 1000000000 < ns(limit))))
+//@   ensures  owners_same: forall n string :: in(n, m.Owners) ==> m.Owners[n] == old(m).Owners[n]
+//@   loop 0 invariant !isnil(m.Partitions) && !isnil(m.Owners) && total >= 0 && removed >= 0 && same(m.Owners, old(m).Owners)
+//@   loop 0 invariant forall id int32 :: !$visited[id] ==> (in(id, m.Partitions) <==> in(id, $coll))
+//@   loop 0 invariant forall id int32 :: $visited[id] ==> (in(id, m.Partitions) <==> !($coll[id].State == PartitionDeleted && (iszero(limit) || $coll[id].StateTimestamp * 1000000000 < ns(limit))))
+//@   loop 0 invariant forall id int32 :: in(id, m.Partitions) ==> in(id, $coll) && m.Partitions[id] == $coll[id]
+//@   loop 1 invariant !isnil(m.Partitions) && !isnil(m.Owners) && total >= 0 && removed >= 0
+//@   loop 1 invariant forall id int32 :: in(id, m.Partitions) <==> (in(id, old(m).Partitions) && !(old(m).Partitions[id].State == PartitionDeleted && (iszero(limit) || old(m).Partitions[id].StateTimestamp * 1000000000 < ns(limit))))
+//@   loop 1 invariant forall id int32 :: in(id, m.Partitions) ==> m.Partitions[id] == old(m).Partitions[id]
+//@   loop 1 invariant forall n string :: !$visited[n] ==> (in(n, m.Owners) <==> in(n, $coll))
+//@   loop 1 invariant forall n string :: $visited[n] ==> (in(n, m.Owners) <==> !($coll[n].State == OwnerDeleted && (iszero(limit) || $coll[n].UpdatedTimestamp * 1000000000 < ns(limit))))
+//@   loop 1 invariant forall n string :: in(n, m.Owners) ==> in(n, $coll) && m.Owners[n] == $coll[n]
